@@ -27,7 +27,7 @@ RULE = (
 )
 BOUNDS = {
     "quick": "12 fixtures; regions: parse code + next_parse_offset (5 bytes) of every unit, every 1-byte window of the first sequence header, 2 seeded 2-byte windows per picture/fragment/padding unit, and every 2-byte window of the picture units of ld_min and hq_tiny_lossless (all slice qindex/length fields and payload bytes)",
-    "thorough": "23 fixtures; all 2-byte windows over the first 16 bytes of every picture/fragment unit; all 2-byte windows over the sequence header of 3 fixtures",
+    "thorough": "23 fixtures; all 2-byte windows over the first 12 bytes of every picture/fragment unit; all 2-byte windows over the sequence header of 3 fixtures",
 }
 OUTSIDE = "regions larger than the bound; byte strings the deserialiser does not parse to completion (EOFError etc.) are outside the property"
 ASSUMPTIONS = [
@@ -65,7 +65,7 @@ def _regions(name, meta, tier, rnd):
                 for s in range(body, end - 1):
                     out.append(("u%d@%d" % (i, s - off), [(s, 2)]))
             continue
-        starts = list(range(body, min(end, body + (24 if quick else 16)) - 1))
+        starts = list(range(body, min(end, body + (24 if quick else 12)) - 1))
         if quick and name in SLICE_FIXTURES and code in (0xC8, 0xE8):
             starts = list(range(body, end - 1))  # every window, incl. all slice headers (qindex, length fields)
         elif quick:
